@@ -277,6 +277,9 @@ def lib_key(s):
     if name in ("windows", "chunks", "chunks_exact", "rchunks") and s.get("const_arg1") not in (None, 0):
         return None           # window / chunk size is a non-zero constant
     tc = norm_key(type_class(s.get("ty") or ""))
+    if callee in ("std::option::Option::<T>::unwrap", "std::option::Option::<T>::expect") and (s.get("origin") or "").startswith("std::iter::Iterator::next<"):
+        # `it.next().unwrap()`: first element of a sequence that is non-empty by construction - one class whatever the element type
+        return "call|std::option::Option::<T>::unwrap|<-next"
     if name in ("index", "index_mut") and callee.startswith("std::ops::Index"):
         return "index|str" if tc == "str" else "index|slice-like"
     if name in ("remove", "swap_remove"):
